@@ -27,6 +27,7 @@ mutual
     | .dotSyn, _ => rfl
     | .dotIoErr, _ => rfl
     | .execFail _, _ => rfl
+    | .evalEmpty, _ => rfl
     | .command inner, s => by
       simp only [execBody]
       have := execBody_stack fuel inner (s.push (.builtin false))
